@@ -173,7 +173,7 @@ func (rn *runner) dialReal(i int, t *Task) {
 		d.HandshakeTimeout = time.Duration(cfg.HsTimeoutMs) * time.Millisecond
 	}
 	end.HsStart = int64(rn.sim.Now())
-	conn, resp, err := d.DialContext(context.Background(), "ws://"+linkAddr(i)+"/x?y=1", nil)
+	conn, resp, err := d.DialContext(context.Background(), "ws://"+linkAddr(i)+"/x?y=1", http.Header(cfg.ReqHeader))
 	end.HsEnd = int64(rn.sim.Now())
 	end.Net = got
 	end.Resp = resp
